@@ -447,7 +447,7 @@ for _k, _v in _ADDED5.items():
     if _v:
         CHECKS[_k]["level_text"] += " " + _v
 _ADDED6 = {
-    "C01": "Single transient datastore write or read failures during opens (an honest message refused for good because of one is a violation). Message-store layer: a device sends a run of messages through its own message store (reading each back before the next), a member with a key window of 2-5 receives them in order and must be handed all of them with the sender's counters.",
+    "C01": "Single transient datastore write or read failures during opens (an honest message refused for good because of one is a violation). Message-store layer: a device sends a run of messages through its own message store (reading each back before the next), a member with a key window of 2-5 receives them in order and must be handed all of them with the sender's counters. Mutant class (g): a push forged by a fellow member that cites the content identifier of an entry already received through the store.",
     "C02": "Every third message of a sender has no content at all. `TestVerif_C02_TransientWriteFailure`: one failing write while a message is opened; the next message is opened first, then the failed one again (it is still inside the window).",
     "C03": "Forged entries also arrive by replication from a branch concurrent with the victim's history (a replica that merged nothing, Lamport time 1), alone or covered by a genuine entry of the forger in the same batch. `TestVerif_C03_UnknownTypeNumbers`: every undefined event type number from -8 to 2200 (and some large ones) under a payload and signature genuine for each defined type.",
     "C04": "Controlled schedules (DFS + rapid) of overlapping index passes of the writer's task and the replication task over a log that grows meanwhile (instrumented index; the final state must be the state of the entries held). Scripted two-writer histories (two devices writing different values about one subject, one going on without having seen the other) run before the generated ones.",
